@@ -141,17 +141,25 @@ func parseBlock(t *Tree, start Pos) (Node, error) {
 	if err != nil {
 		return nil, err
 	}
+	if _, ok := t.Blocks()[blockName.value]; ok {
+		// Every reference to the name resolves to one definition: of two
+		// blocks with the same name one would be rendered in place of the other,
+		// and a block defined inside itself would be rendered without end.
+		return nil, newDuplicateBlockError(blockName)
+	}
 	_, err = t.expect(tokenTagClose)
 	if err != nil {
 		return nil, err
 	}
+	// The name is taken from here on, also for the blocks inside this one.
+	nod := NewBlockNode(blockName.value, nil, start)
+	nod.Origin = t.Name
+	t.setBlock(blockName.value, nod)
 	body, err := t.parseUntilEndTag("block", start)
 	if err != nil {
 		return nil, err
 	}
-	nod := NewBlockNode(blockName.value, body, start)
-	nod.Origin = t.Name
-	t.setBlock(blockName.value, nod)
+	nod.Body = body
 	return nod, nil
 }
 
